@@ -1,0 +1,48 @@
+//go:build verif
+// +build verif
+
+package verifshim
+
+import (
+	"github.com/z7zmey/php-parser/internal/php5"
+	"github.com/z7zmey/php-parser/internal/php7"
+	"github.com/z7zmey/php-parser/internal/position"
+	"github.com/z7zmey/php-parser/internal/scanner"
+	"github.com/z7zmey/php-parser/pkg/ast"
+	"github.com/z7zmey/php-parser/pkg/conf"
+	"github.com/z7zmey/php-parser/pkg/token"
+)
+
+type (
+	Lexer    = scanner.Lexer
+	LexState = scanner.VerifLexState
+	NewLines = scanner.NewLines
+	Builder  = position.Builder
+	Parser5  = php5.Parser
+	Parser7  = php7.Parser
+)
+
+// Parser is what both generated parsers offer.
+type Parser interface {
+	Parse() int
+	GetRootNode() ast.Vertex
+}
+
+func NewLexer(data []byte, config conf.Config) *Lexer { return scanner.NewLexer(data, config) }
+
+func NewBuilder() *Builder { return position.NewBuilder() }
+
+func NewParser5(lex *Lexer, config conf.Config) *Parser5 { return php5.NewParser(lex, config) }
+func NewParser7(lex *Lexer, config conf.Config) *Parser7 { return php7.NewParser(lex, config) }
+
+func SetDebug5(n int) { php5.VerifSetDebug(n) }
+func SetDebug7(n int) { php7.VerifSetDebug(n) }
+
+func Tables5() ([]int, []int, []string) { return php5.VerifTables() }
+func Tables7() ([]int, []int, []string) { return php7.VerifTables() }
+
+func Tokname5(c int) string { return php5.VerifTokname(c) }
+func Tokname7(c int) string { return php7.VerifTokname(c) }
+
+func SetLexHook5(f func(p *Parser5, t *token.Token)) { php5.VerifLexHook = f }
+func SetLexHook7(f func(p *Parser7, t *token.Token)) { php7.VerifLexHook = f }
